@@ -1,0 +1,56 @@
+//go:build verif
+
+package remote
+
+import (
+	"bufio"
+	"io"
+
+	"github.com/mutagen-io/mutagen/pkg/encoding"
+	"github.com/mutagen-io/mutagen/pkg/logging"
+	"github.com/mutagen-io/mutagen/pkg/synchronization"
+	"github.com/mutagen-io/mutagen/pkg/synchronization/rsync"
+)
+
+// VerifC21Serve runs the endpoint server's request loop (endpointServer.serve)
+// for an arbitrary underlying endpoint over an uncompressed stream, skipping
+// only the compression handshake and the initialize exchange of ServeEndpoint.
+// It exists only in builds with the verif tag (property C21).
+func VerifC21Serve(endpoint synchronization.Endpoint, stream io.ReadWriter) error {
+	outbound := bufio.NewWriter(stream)
+	server := &endpointServer{
+		endpoint: endpoint,
+		flusher:  outbound,
+		encoder:  encoding.NewProtobufEncoder(outbound),
+		decoder:  encoding.NewProtobufDecoder(bufio.NewReader(stream)),
+	}
+	return server.serve()
+}
+
+// VerifC21Client creates an endpoint client over an uncompressed stream,
+// skipping only the compression handshake and the initialize exchange of
+// NewEndpoint.
+func VerifC21Client(stream io.ReadWriteCloser) synchronization.Endpoint {
+	outbound := bufio.NewWriter(stream)
+	return &endpointClient{
+		logger:  logging.NewLogger(logging.LevelDisabled, nil),
+		closer:  stream,
+		flusher: outbound,
+		encoder: encoding.NewProtobufEncoder(outbound),
+		decoder: encoding.NewProtobufDecoder(bufio.NewReader(stream)),
+	}
+}
+
+// VerifC21LastSnapshotBytes returns the snapshot baseline a client endpoint
+// currently holds (nil for other endpoint types).
+func VerifC21LastSnapshotBytes(endpoint synchronization.Endpoint) []byte {
+	if c, ok := endpoint.(*endpointClient); ok {
+		return c.lastSnapshotBytes
+	}
+	return nil
+}
+
+// VerifC21StageResponseEnsureValid exposes StageResponse.ensureValid.
+func VerifC21StageResponseEnsureValid(paths []string, signatures []*rsync.Signature, errorMessage string, requested []string) error {
+	return (&StageResponse{Paths: paths, Signatures: signatures, Error: errorMessage}).ensureValid(requested)
+}
